@@ -401,11 +401,9 @@ Proof.
   intros Hinv Hleg Hstep Hcl Hcl'. apply step_Done in Hstep as (m & m' & Hh & Hs & -> & _).
   assert (Hinit : CS b (c_svc cl) (m_init s)) by (intros cl1 H1; cbn in H1; congruence).
   assert (Hpick : forall b1 nxt, pick_serial s (i_bserial i) = Some (b1, nxt) -> b1 <> b).
-  { intros b1 nxt Hp ->. rewrite (pick_serial_legal s i Hleg) in Hp. destruct Hleg as (_ & _ & Hb & _).
-    destruct (i_bserial i) as [b0|].
-    - injection Hp as -> _. destruct Hb as [Hb _]. congruence.
-    - injection Hp as <- _. pose proof (iv_cb _ _ _ _ _ Hinv (4294967296 + next s)) as Hbound.
-      rewrite Hcl in Hbound. specialize (Hbound (ex_intro _ cl eq_refl)). lia. }
+  { intros b1 nxt Hp ->.
+    destruct (pick_serial_legal s i (proj1 (iv_cb _ _ _ _ _ Hinv)) Hleg) as (b0 & nxt0 & Hp0 & _ & Hv & _).
+    rewrite Hp0 in Hp. injection Hp as -> _. congruence. }
   assert (Hpost : CS b (c_svc cl) m).
   { destruct (i_ev i) as [c ver|c|c x| | |c|c]; cbn [step_handler] in Hh; fold (m_init s) in Hh.
     - destruct (conns s !! c); [discriminate|]. injection Hh as <-. exact Hinit.
